@@ -148,15 +148,15 @@ func run(c *fw.Ctx) {
 	var cfgs []cfg
 	if c.Thorough() {
 		cfgs = []cfg{
-			{"mini", 15, []int{1, 2, 3, 4}, []int{0, 1}},
-			{"mini", 7, []int{1, 2, 3}, []int{2}},
-			{"flat3", 12, []int{1, 2, 3, 4, 5}, []int{0, 1}},
+			{"mini", 16, []int{1, 2, 3, 4, 5}, []int{0, 1}},
+			{"mini", 9, []int{1, 2, 3}, []int{2}},
+			{"flat3", 14, []int{1, 2, 3, 4, 5}, []int{0, 1}},
 		}
 	} else {
 		cfgs = []cfg{
-			{"mini", 10, []int{1, 2, 3, 4}, []int{0, 1}},
-			{"mini", 5, []int{1, 2}, []int{2}},
-			{"flat3", 8, []int{1, 2, 3}, []int{1}},
+			{"mini", 12, []int{1, 2, 3, 4}, []int{0, 1}},
+			{"mini", 6, []int{1, 2, 3}, []int{2}},
+			{"flat3", 10, []int{1, 2, 3, 4}, []int{0, 1}},
 		}
 	}
 	var bd []string
